@@ -38,16 +38,20 @@ type InlineResult struct {
 }
 
 type inliner struct {
-	pkg        *packages.Package
-	info       *types.Info
-	decls      map[*types.Func]*ast.FuncDecl
-	origOf     map[ast.Node]ast.Node // copy -> original (for type information)
-	inlined    map[string]bool
-	bodies     []inlinedBody
-	label      int
-	curImports map[string]string // imports of the file being rewritten: local name -> path
-	count      int               // number of inlinings performed
-	rewritten  map[*ast.FuncDecl]bool
+	pkg         *packages.Package
+	info        *types.Info
+	decls       map[*types.Func]*ast.FuncDecl
+	origOf      map[ast.Node]ast.Node // copy -> original (for type information)
+	inlined     map[string]bool
+	bodies      []inlinedBody
+	label       int
+	curImports  map[string]string // imports of the file being rewritten: local name -> path
+	count       int               // number of inlinings performed
+	inlinedObj  map[*types.Func]bool
+	tail        bool // the call being inlined is the operand of a return statement
+	dropped     []string
+	droppedFile map[*ast.File]bool
+	rewritten   map[*ast.FuncDecl]bool
 }
 
 type inlinedBody struct {
@@ -67,7 +71,7 @@ func Inline(pkg *packages.Package, roots ...string) (*InlineResult, error) {
 	if r, ok := inlineCache[key]; ok {
 		return r, nil
 	}
-	in := &inliner{pkg: pkg, info: pkg.TypesInfo, decls: map[*types.Func]*ast.FuncDecl{}, origOf: map[ast.Node]ast.Node{}, inlined: map[string]bool{}, rewritten: map[*ast.FuncDecl]bool{}}
+	in := &inliner{pkg: pkg, info: pkg.TypesInfo, decls: map[*types.Func]*ast.FuncDecl{}, origOf: map[ast.Node]ast.Node{}, inlined: map[string]bool{}, rewritten: map[*ast.FuncDecl]bool{}, inlinedObj: map[*types.Func]bool{}, droppedFile: map[*ast.File]bool{}}
 	for _, f := range pkg.Syntax {
 		for _, d := range f.Decls {
 			if fd, ok := d.(*ast.FuncDecl); ok {
@@ -131,6 +135,41 @@ func Inline(pkg *packages.Package, roots ...string) (*InlineResult, error) {
 	if len(in.inlined) == 0 {
 		inlineCache[key] = nil
 		return nil, nil
+	}
+	// a helper all of whose uses were inlined is dead code in the variant (it is unexported and no
+	// identifier with its name remains outside its own declaration): drop its declaration, so that rules
+	// do not analyse the extracted fragment a second time out of its context
+	for f, d := range in.decls {
+		if !in.inlinedObj[f] || ast.IsExported(f.Name()) {
+			continue
+		}
+		uses := 0
+		for _, file := range files {
+			for _, decl := range file.Decls {
+				if decl == ast.Decl(d) {
+					continue
+				}
+				ast.Inspect(decl, func(n ast.Node) bool {
+					if id, ok := n.(*ast.Ident); ok && id.Name == f.Name() {
+						uses++
+					}
+					return true
+				})
+			}
+		}
+		if uses > 0 {
+			continue
+		}
+		for _, file := range files {
+			for j, decl := range file.Decls {
+				if decl == ast.Decl(d) {
+					file.Decls = append(append([]ast.Decl(nil), file.Decls[:j]...), file.Decls[j+1:]...)
+					in.dropped = append(in.dropped, FuncDisplay(f))
+					in.droppedFile[file] = true
+					break
+				}
+			}
+		}
 	}
 	// re-type-check
 	info := &types.Info{Types: map[ast.Expr]types.TypeAndValue{}, Defs: map[*ast.Ident]types.Object{}, Uses: map[*ast.Ident]types.Object{},
@@ -196,7 +235,7 @@ func Inline(pkg *packages.Package, roots ...string) (*InlineResult, error) {
 	// second phase: the rewritten files are printed and parsed again so that positions are consistent
 	// (rules use lexical containment), then the package is type-checked once more
 	for i, f := range files {
-		touched := false
+		touched := in.droppedFile[f]
 		for _, d := range f.Decls {
 			if fd, ok := d.(*ast.FuncDecl); ok && in.rewritten[fd] {
 				touched = true
@@ -437,13 +476,15 @@ func (in *inliner) rewriteList(list *[]ast.Stmt, stack map[*ast.FuncDecl]bool, d
 				}
 			}
 		case *ast.ReturnStmt:
+			// `return h(…)` is a tail call: the helper's body replaces the statement and its own return
+			// statements return from the enclosing function (no result variables needed)
 			if len(x.Results) == 1 {
 				if call, ok := Unparen(x.Results[0]).(*ast.CallExpr); ok {
-					if pre, blk := in.inlineCallStmt(call, stack, depth, true); blk != nil {
-						out = append(out, pre.decls...)
+					in.tail = true
+					_, blk := in.inlineCallStmt(call, stack, depth, true)
+					in.tail = false
+					if blk != nil {
 						out = append(out, blk)
-						x.Results = pre.idents(call.Pos())
-						out = append(out, x)
 						continue
 					}
 				}
@@ -546,6 +587,8 @@ func (in *inliner) inlineCallStmt(call *ast.CallExpr, stack map[*ast.FuncDecl]bo
 }
 
 func (in *inliner) inlineCallStmt0(call *ast.CallExpr, stack map[*ast.FuncDecl]bool, depth int, withResults bool) (rv resultVars, _ ast.Stmt) {
+	tail := in.tail
+	in.tail = false
 	if depth > 3 {
 		return rv, nil
 	}
@@ -573,7 +616,7 @@ func (in *inliner) inlineCallStmt0(call *ast.CallExpr, stack map[*ast.FuncDecl]b
 	if !ok {
 		return rv, nil
 	}
-	if withResults {
+	if withResults && !tail {
 		in.label++
 		for _, fld := range d.Type.Results.List {
 			name := fmt.Sprintf("inlined%dr%d", in.label, len(rv.names))
@@ -653,7 +696,11 @@ func (in *inliner) inlineCallStmt0(call *ast.CallExpr, stack map[*ast.FuncDecl]b
 	for k := range stack {
 		nstack[k] = true
 	}
-	if hasRet {
+	if tail {
+		// returns stay returns
+		blk.List = append(blk.List, body)
+		in.rewriteList(&body.List, nstack, depth+1)
+	} else if hasRet {
 		in.label++
 		lab := fmt.Sprintf("inlined%d", in.label)
 		replaceReturns(body, lab, rv.names)
@@ -665,6 +712,7 @@ func (in *inliner) inlineCallStmt0(call *ast.CallExpr, stack map[*ast.FuncDecl]b
 		in.rewriteList(&body.List, nstack, depth+1)
 	}
 	in.inlined[FuncDisplay(f)] = true
+	in.inlinedObj[f] = true
 	in.count++
 	return rv, blk
 }
@@ -795,6 +843,7 @@ func (in *inliner) inlineExpr(call *ast.CallExpr, stack map[*ast.FuncDecl]bool, 
 		return true
 	})
 	in.inlined[FuncDisplay(f)] = true
+	in.inlinedObj[f] = true
 	in.count++
 	return holder
 }
